@@ -51,7 +51,7 @@ Print Assumptions C11_dest_version_accounted.
    conflicting file onto an existing conflict copy`; premise: one of the four names the model tries is free -- the code's
    search is unbounded).  Before that repair the rename went onto the plain name and silently destroyed what was there. *)
 Theorem C11_other_paths_survive : forall now w p a q,
-  q <> p -> slot_free (w_src w) Source p -> slot_free (w_dst w) Dest p ->
+  q <> p -> slot_free (w_src w) (w_dst w) Source p -> slot_free (w_dst w) (w_src w) Dest p ->
   (forall v, w_src w q = Some v -> w_src (exec now w p a) q = Some v) /\
   (forall v, w_dst w q = Some v -> w_dst (exec now w p a) q = Some v).
 Proof. exact exec_keeps_other_paths. Qed.
